@@ -304,8 +304,11 @@ def run(ctx: Ctx) -> None:
         link_target = c.args[-1] if c.args else None
         facts = q.facts_at(f, c)
         good = False
+        resolving = False
         for cond, pol in facts:
-            if not pol or not (isinstance(cond, ast.Call) and attr_tail(cond) == "is_path_valid" and len(cond.args) >= 2):
+            # the textual check, or the link-resolving one (R03.6 decides that it resolves the whole path and fails closed; it is the stronger of
+            # the two: a text that passes through a link, 's/../t', is judged as the system will follow it)
+            if not pol or not (isinstance(cond, ast.Call) and attr_tail(cond) in ("is_path_valid", "is_path_contained") and len(cond.args) >= 2):
                 continue
             a0, a1 = cond.args[0], cond.args[1]
             # a0 = <sink path>.parent.joinpath(<link text>)
@@ -331,8 +334,14 @@ def run(ctx: Ctx) -> None:
                         fe = next((s for s in tn.succ if s.kind == "false"), None)
                         if fe is not None and q.branch_always_raises(cfg_of(f.node), fe):
                             good = True
-        ctx.check(good, "R03.2", f, c, f"{f.qname}: {kind} guarded by is_path_valid(parent.joinpath(target), destination)",
-                  f"link creation ({kind}) is not guarded by is_path_valid on the joined link target against the destination, "
+                            resolving = resolving or attr_tail(cond) == "is_path_contained"
+        if good and not resolving:
+            # the textual check alone takes 'a/b/L/../x' for 'a/b/x'; when L is an (individually harmless) link to the destination itself the system
+            # follows it to the PARENT of the destination: links that escape when followed one through another
+            ctx.fail("R03.2", f, c, f"link creation ({kind}) is guarded by the textual check only: a target text that passes through an earlier link ('a/b/L/../x' with L -> '../..') is "
+                     "judged as 'a/b/x' but leads outside the destination; the link-resolving check (is_path_contained) must decide", construct=f"{kind} textual guard only")
+        ctx.check(good, "R03.2", f, c, f"{f.qname}: {kind} guarded by a containment check of parent.joinpath(target) against the destination",
+                  f"link creation ({kind}) is not guarded by is_path_valid / is_path_contained on the joined link target against the destination, "
                   "or the failing branch does not raise")
 
     r03_3(ctx)
@@ -562,9 +571,32 @@ def r03_6(ctx: Ctx, roots) -> None:
         dotted(c.func) in ("os.path.realpath",) or (isinstance(c.func, ast.Attribute) and c.func.attr in ("resolve", "realpath")) for c in q.calls(f))]
     if not helpers:
         ctx.note("R03.6: no link-resolving helper is reachable from extraction (R03.4 reports the missing checks)")
+    def fails_closed(h) -> bool:
+        """the function does not take realpath's answer on trust: strict resolution, or an lstat probe of the answer whose OSError (other than
+        'does not exist') leads to a refusing return"""
+        if any(any(k.arg == "strict" and isinstance(k.value, ast.Constant) and k.value.value is True for k in c.keywords) for c in q.calls(h)
+               if dotted(c.func) == "os.path.realpath" or attr_tail(c) == "resolve"):
+            return True
+        for t in [t for t in walk(h.node) if isinstance(t, ast.Try)]:
+            probes = any(isinstance(x, ast.Call) and dotted(x.func) in ("os.lstat", "os.stat") or (isinstance(x, ast.Call) and attr_tail(x) in ("lstat",)) for st in t.body for x in ast.walk(st))
+            refuses = any(hh.type is not None and any(isinstance(x, ast.Name) and x.id in ("OSError", "Exception") for x in ast.walk(hh.type)) and
+                          any(isinstance(x, ast.Return) and isinstance(x.value, ast.Constant) and x.value.value in (None, False) for x in ast.walk(hh)) for hh in t.handlers)
+            if probes and refuses:
+                return True
+        return False
+
+    resolvers = [h for h in helpers if not ({attr_tail(c) for c in q.calls(h)} & {"commonpath", "relative_to", "is_relative_to", "samefile", "startswith", "commonprefix"})]
+    for h in helpers:
+        direct = [c for c in q.calls(h) if dotted(c.func) == "os.path.realpath" or (isinstance(c.func, ast.Attribute) and c.func.attr in ("resolve",))]
+        ctx.check(fails_closed(h), "R03.6", h, direct[0], f"{h.name}: realpath's answer is examined (fails closed)",
+                  f"{h.name} takes `os.path.realpath` on trust: realpath treats a component whose lstat fails (ENAMETOOLONG once the resolved path passes 4096 bytes, EACCES, ELOOP) as a plain "
+                  "name and carries on textually, while the kernel walks a short spelling of the same path through a link - a hostile archive gets a file written into the parent of "
+                  "the destination", construct=f"{h.name} trusts realpath")
+    helpers = [h for h in helpers if h not in resolvers] + [f for f in clo.values() if f.module == "helpers" and f not in helpers and any(
+        attr_tail(c) in {r.name for r in resolvers} for c in q.calls(f))]
     for h in helpers:
         tparam = h.params[0]
-        rp = [c for c in q.calls(h) if dotted(c.func) == "os.path.realpath" or (isinstance(c.func, ast.Attribute) and c.func.attr in ("resolve",))]
+        rp = [c for c in q.calls(h) if dotted(c.func) == "os.path.realpath" or (isinstance(c.func, ast.Attribute) and c.func.attr in ("resolve",)) or attr_tail(c) in {r.name for r in resolvers}]
         full = False
         for c in rp:
             arg = c.args[0] if c.args else (c.func.value if isinstance(c.func, ast.Attribute) else None)
